@@ -38,12 +38,13 @@ def check_title(case, stats):
     rest = kw + ":" + TITLES[ti]
     variant = case.get("variant", "header")
     if variant == "header":
-        line = " " * ind + "#" * depth + " " + rest + "\n"
+        # the one blank behind the hashes may be any white-space character (tab, no-break space, ideographic space ...)
+        line = " " * ind + "#" * depth + case.get("blank", " ") + rest + "\n"
     elif variant == "nospace":
         line = " " * ind + "#" * depth + rest + "\n"
     else:
         line = " " * ind + rest + "\n"
-    stats.case((d, cat, kw, depth, ind, ti, variant, case.get("history", 0)), True, sample=case, labels=[variant, "depth=%d" % depth] + (["after-history"] if case.get("history") else []))
+    stats.case((d, cat, kw, depth, ind, ti, variant, case.get("history", 0), case.get("blank", " ")), True, sample=case, labels=[variant, "depth=%d" % depth] + (["after-history"] if case.get("history") else []))
     m = MD(d)
     if case.get("history"):
         # the same matcher has already recognised a feature header and seen other lines (no reset in between)
@@ -99,6 +100,8 @@ def unit_titles(a):
                                 yield {"sub": "title", "dialect": d, "cat": cat, "kw": kw, "depth": depth, "indent": ind, "title": ti}
                     for hist in (1, 2, 4):
                         yield {"sub": "title", "dialect": d, "cat": cat, "kw": kw, "depth": 2, "indent": 0, "title": 1, "history": hist}
+                    for bl in ("\t", "\u00a0", "\u3000", "\u2003", "\x0b", "\x1f"):
+                        yield {"sub": "title", "dialect": d, "cat": cat, "kw": kw, "depth": 1 + (len(kw) % 6), "indent": len(kw) % 3, "title": 1, "blank": bl}
                     for ind in (0, 2):
                         for depth in (1, 3):
                             yield {"sub": "title", "dialect": d, "cat": cat, "kw": kw, "depth": depth, "indent": ind, "title": 1, "variant": "nospace"}
@@ -110,8 +113,8 @@ def unit_titles(a):
 def check_step(case, stats):
     d, kw, bullet, sp, ind = case["dialect"], case["kw"], case["bullet"], case["spaces"], case["indent"]
     rest = kw + "some text "
-    line = " " * ind + (bullet + " " * sp if bullet else "") + rest + "\n"
-    stats.case((d, kw, bullet, sp, ind, case.get("history", 0)), True, sample=case, labels=["bullet" if bullet else "no-bullet"] + (["after-history"] if case.get("history") else []))
+    line = " " * ind + (bullet + case.get("blank", " ") * sp if bullet else "") + rest + "\n"
+    stats.case((d, kw, bullet, sp, ind, case.get("history", 0), case.get("blank", " ")), True, sample=case, labels=["bullet" if bullet else "no-bullet"] + (["after-history"] if case.get("history") else []))
     m = MD(d)
     if case.get("history"):
         # recognition of a line does not depend on what the matcher was shown before (an open code fence, a feature header, prose)
@@ -168,6 +171,8 @@ def unit_steps(a):
                             yield {"sub": "step", "dialect": d, "kw": kw, "bullet": bullet, "spaces": sp, "indent": ind}
                     yield {"sub": "step", "dialect": d, "kw": kw, "bullet": bullet, "spaces": 1, "indent": 0, "history": 1}
                     yield {"sub": "step", "dialect": d, "kw": kw, "bullet": bullet, "spaces": 1, "indent": 2, "history": 5}
+                    for bl in ("\t", "\u00a0", "\u3000", "\u2003"):
+                        yield {"sub": "step", "dialect": d, "kw": kw, "bullet": bullet, "spaces": 1 + (len(kw) % 2), "indent": len(kw) % 3, "blank": bl}
                 yield {"sub": "step", "dialect": d, "kw": kw, "bullet": "", "spaces": 0, "indent": 0}
                 yield {"sub": "step", "dialect": d, "kw": kw, "bullet": "", "spaces": 0, "indent": 2}
     sweep(stats, gen(), check_step)
@@ -187,6 +192,13 @@ def unit_steps(a):
                     continue
                 for hdr in ("# ", "## ", " ###### "):
                     yield {"sub": "cross", "dialect": d, "line": hdr + kw + "x"}
+                # a list marker in the MIDDLE of a line starts nothing
+                for tmpl in ("some prose - %sy", "3 cukes * %sz", "The **%sthe stack is empty** part", "a+%sb", "x: - %sy", "|- %sy"):
+                    yield {"sub": "cross", "dialect": d, "line": tmpl % kw}
+            for cat in TITLE_CATS:
+                for kw in D[cat][:1]:
+                    for tmpl in ("see # %s: x", "a ## %s: y", "x#%s: z"):
+                        yield {"sub": "cross", "dialect": d, "line": tmpl % kw}
     sweep(stats, cross(), check_cross)
     return stats
 
